@@ -9,7 +9,32 @@ import pickle
 import numpy as np
 
 from sim.core import Violation, canon, h64
-from sim.snap import norm, snap, first_diff
+from sim.snap import norm, snap as _snap, first_diff
+
+
+def _lookups(ix):
+    '''Position every (of the first dozen) label looks up to: offsets and maps are state that label arrays do not show.'''
+    out = []
+    for i, lab in enumerate(ix):
+        if i >= 12:
+            break
+        try:
+            p = ix.loc_to_iloc(tuple(lab) if ix.depth > 1 else lab)
+            out.append(int(p) if isinstance(p, (int, np.integer)) else repr(type(p).__name__))
+        except Exception as e:  # noqa
+            out.append('raise:' + type(e).__name__)
+    return out
+
+
+def snap(obj):
+    '''sim.snap.snap plus the label -> position lookups of every index involved.'''
+    s = _snap(obj)
+    if isinstance(obj, IndexBase):
+        s = dict(s, lookups=_lookups(obj))
+    elif hasattr(obj, 'index') and isinstance(getattr(obj, 'index', None), IndexBase):
+        s = dict(s, lookups=[_lookups(obj.index)] + ([_lookups(obj.columns)] if isinstance(getattr(obj, 'columns', None), IndexBase) else []))
+    return s
+
 from worlds.base import WorldBase, SimulatedFailure, call, enc, dec
 from static_frame.core.index_base import IndexBase
 
@@ -122,14 +147,14 @@ class AliasWorld(WorldBase):
         if what == 'selector':
             return {'op': 'selector', 'h': h, 'iface': ch.choice(['iloc', 'loc', 'getitem', 'drop_iloc', 'assign_iloc', 'mask_iloc', 'masked_array_iloc', 'bloc', 'assign_bloc', 'via_str', 'via_dt', 'via_T', 'via_fill_value', 'iter']),
                     'key': ch.choice([0, 1, {'slice': [0, 2]}, [0], [1, 0], {'bools': 1}, {'pair': [0, 0]}, {'pair': [{'slice': [0, 2]}, 0]}, {'pair': [[0, 1], [0]]}]),
-                    'extra': ch.randint(0, 6)}
+                    'extra': ch.randint(0, 47)}
         if what == 'operator':
             return {'op': 'operator', 'h': h, 'which': ch.choice(['add', 'mul', 'eq', 'neg', 'invert', 'abs', 'matmul', 'lt', 'radd', 'self', 'floordiv', 'and', 'round', 'round1', 'rmatmul']),
                     'other_h': ch.choice(hs)}
         if what == 'go_grow':
             return {'op': 'go_grow', 'h': h, 'how': ch.choice(['to_frame_go', 'ctor_go', 'to_frame_go_twice', 'columns_go', 'index_go']), 'grow': ch.choice(['setitem', 'extend', 'extend_items', 'append'])}
         if what == 'mutate_attempt':
-            return {'op': 'mutate_attempt', 'h': h, 'how': ch.choice(['setitem', 'setattr_name', 'delitem', 'iloc_assign', 'loc_assign', 'setattr_values', 'delattr', 'values_fill', 'index_setitem', 'inplace_add'])}
+            return {'op': 'mutate_attempt', 'h': h, 'how': ch.choice(['setitem', 'setattr_name', 'delitem', 'iloc_assign', 'loc_assign', 'setattr_values', 'delattr', 'values_fill', 'index_setitem', 'inplace_add', 'ctor_own_data_fail'])}
         return {'op': 'drop', 'h': h}
 
     def gen_new(self, ch):
@@ -140,7 +165,7 @@ class AliasWorld(WorldBase):
         op = {'op': 'new', 'kind': kind, 'out': self.next_h, 'nr': nr, 'nc': nc, 'dk': dk,
               'writeable': ch.chance(0.8), 'index_array': ch.chance(0.6), 'iw': ch.chance(0.8),
               'layout': ch.choice(['2d', 'columns', 'mixed', 'fortran', 'view', 'strided']),
-              'route': ch.randint(0, 21), 'name': ch.choice([None, 'nm'])}
+              'route': ch.randint(0, 25), 'name': ch.choice([None, 'nm'])}
         return op
 
     # ------------------------------------------------------------------ helpers
@@ -353,7 +378,7 @@ class AliasWorld(WorldBase):
     def collect(self, r, site, cls, depth=0):
         '''Walk a result: arrays must be read-only, static containers join the pool.'''
         sf = self.sf
-        if depth > 3:
+        if depth > 5:
             return
         if isinstance(r, np.ma.MaskedArray):
             return  # masked arrays are NumPy's own mutable type, requested explicitly
@@ -460,7 +485,7 @@ class AliasWorld(WorldBase):
                 return cls(a, index=index_arg(nr, 0), dtype=a.dtype, name=name), 'Series(array,dtype)'
             if kind in ('Frame', 'FrameHE'):
                 cls = getattr(sf, kind)
-                r = route % 11
+                r = route % 13
                 layout = op['layout']
                 if r == 0:
                     a = self._keep(self._mk_array(nr, dk, w, nc, layout), 'Frame 2d values')
@@ -497,6 +522,20 @@ class AliasWorld(WorldBase):
                     self.go_sources.append(g)
                     how = route % 3
                     return (g.to_frame() if how == 0 else cls(g) if how == 1 else g.to_frame_he().to_frame()), 'Frame(from grow-only source)'
+                if r == 12:
+                    # parsed from delimited text (a private buffer made by the parser): one row and several rows
+                    import io
+                    rows = max(1, nr)
+                    text = ','.join(['ix'] + labels[:max(1, nc)]) + '\n' + ''.join(
+                        ','.join([ROWL[i % len(ROWL)]] + [str(10 * i + j) for j in range(max(1, nc))]) + '\n' for i in range(rows if route % 2 else 1))
+                    if layout in ('2d', 'columns', 'view'):
+                        return cls.from_csv(io.StringIO(text), index_depth=1, name=name), 'Frame.from_csv(text,index)'
+                    return cls.from_tsv(io.StringIO(text.replace(',', '\t')), name=name), 'Frame.from_tsv(text)'
+                if r == 11:
+                    # rows under a hierarchical index (group labels of several depths, level selections)
+                    a = self._keep(self._mk_array(nr, dk, w, nc, layout), 'Frame 2d values')
+                    ih = sf.IndexHierarchy.from_labels([('a' if i < (nr + 1) // 2 else 'b', i) for i in range(nr)]) if nr else None
+                    return cls(a, index=ih, columns=index_arg(nc, 1), name=name), 'Frame(array2d,hierarchical index)'
                 if r == 10:
                     if not nc or not nr:
                         raise SimulatedFailure('empty structured array')
@@ -529,6 +568,10 @@ class AliasWorld(WorldBase):
                     return sf.Index(a, name=name), 'Index(array)'
                 if r == 1:
                     return sf.Index(a, name=name, dtype=a.dtype), 'Index(array,dtype)'
+                if route % 2 and nr:
+                    g = sf.IndexGO(a)
+                    self.go_sources.append(g)
+                    return sf.Index(g, name=name), 'Index(grow-only index)'
                 return sf.Index(sf.Series(a)), 'Index(Series(array))'
             if kind == 'IndexDate':
                 a = self._keep(self._mk_array(nr, 'M', w, layout=op['layout']), 'IndexDate labels')
@@ -541,7 +584,15 @@ class AliasWorld(WorldBase):
             a2[:, 1] = np.arange(n)
             a2.flags.writeable = w
             self._keep(a2, 'IndexHierarchy labels')
-            r = route % 3
+            r = route % 5
+            if r == 3:
+                # depth 3, several outer labels: the nodes below the root carry offsets that derivations must not touch
+                return sf.IndexHierarchy.from_product(('a', 'b'), (1, 2), tuple('xyz'[:max(1, min(n, 3))]), name=name), 'IndexHierarchy.from_product(depth3)'
+            if r == 4:
+                # levels given as grow-only indices the caller keeps (and grows later)
+                g = sf.IndexGO(tuple('xyz'[:max(1, min(n, 3))]))
+                self.go_sources.append(g)
+                return sf.IndexHierarchy.from_product(sf.Index(('a', 'b')), g, name=name), 'IndexHierarchy.from_product(grow-only level)'
             if r == 0:
                 return sf.IndexHierarchy.from_labels(a2, name=name), 'IndexHierarchy.from_labels(array2d)'
             if r == 1:
@@ -729,13 +780,18 @@ class AliasWorld(WorldBase):
             names = [n for n in dir(obj) if n.startswith('iter_')]
             if not names:
                 return None
-            n = names[x % len(names)]
+            n = names[(x // 3) % len(names)]
             node = getattr(obj, n)
-            try:
-                it = node()
-            except TypeError:
-                it = node(0) if 'group' in n else node(size=2)
-            return [it.apply(ident) if x % 2 else list(it)[:5]]
+            mode = x % 3
+            if 'group_labels' in n and mode == 2:
+                # several depths at once: the group label is built from a row of a label array
+                it = node([0, 1] if getattr(getattr(obj, 'index', obj), 'depth', 1) > 1 else [0])
+            else:
+                try:
+                    it = node()
+                except TypeError:
+                    it = node(0) if 'group' in n else node(size=2)
+            return [it.apply(ident) if mode == 1 else list(it)[:5]]
         st, r = call(run)
         if st == 'raise':
             self.fault('failing-call')
@@ -780,6 +836,13 @@ class AliasWorld(WorldBase):
         if not self.go_sources:
             return 'skip'
         g = self.go_sources[op['i'] % len(self.go_sources)]
+        if isinstance(g, IndexBase):
+            st, r = call(lambda: g.append(('ZZ%d' % len(g)) if g.dtype.kind in 'UO' else (10 ** 6 + len(g)) if g.dtype.kind in 'if' else np.datetime64('2031-01-01') + len(g)))
+            if st == 'raise':
+                self.fault('failing-call')
+                return 'raise:' + type(r).__name__
+            self.fault('grow-only-source-grown')
+            return 'ok'
         n = len(g.index)
         key = 'ZZ%d' % g.shape[1]
 
@@ -855,6 +918,7 @@ class AliasWorld(WorldBase):
             return 'skip'
         obj = e.obj
         how = op['how']
+        sf = self.sf
 
         def run():
             if how == 'setitem':
@@ -878,6 +942,16 @@ class AliasWorld(WorldBase):
             elif how == 'inplace_add':
                 v = obj.values
                 v += 1
+            elif how == 'ctor_own_data_fail':
+                # a constructor call that takes over the container's own array and then fails (wrong label count)
+                v = obj.values
+                bad = list(range(len(v) + 1))
+                if isinstance(obj, sf.Frame):
+                    sf.Frame(v, index=bad, own_data=True)
+                elif isinstance(obj, sf.Series):
+                    sf.Series(v, index=bad, own_index=False)
+                else:
+                    sf.Series(np.arange(len(v) + 1), index=obj, own_index=True)
         st, r = call(run)
         if st == 'raise':
             self.fault('mutation-attempt-refused')
